@@ -96,8 +96,11 @@ CONFIG = {
 }
 
 CONFIG["C20"] = dict(
-    level_text="Kernel-checked Lean theorems (Props/C20.lean): every image is the concatenation of the structure's fields in kernel order and size, has the structure's size, decodes back to the original field values for every layout and all in-range values, any other slice length is rejected without reading, and an encoded link-info message (kind + bit timing + control mode as netlink attributes) decodes to the same kind, bit timing and control mode; the model is compared with the real (un)marshalers (reached through a go build -overlay shim), with the unsafe memory image of the x/sys/unix structs, with every decoder on every slice length 0..2x size, and with the real mdlayher/netlink attribute encoder/decoder on every run.",
-    level_note="Trusted: Lean kernel; layout tables transcribed by hand from linux/can/netlink.h and rtnetlink.h (cross-checked against x/sys/unix memory images at run time); mdlayher/netlink is modelled (attribute TLVs), validated by correspondence; little-endian native byte order assumed.",
+    modules=["CanVerif.Props.C20", "CanVerif.Bridge.NetlinkGo"],
+    t2_modules=["CanVerif.Bridge.NetlinkGo"],
+    technique="Lean 4 kernel-checked theorems about an executable model tied to the code by differential execution on every run; the fixed-size (un)marshalers are in addition translated from the Go source on every check and the byte-image, round-trip and size-guard statements proved about the translated code for all inputs (bv_decide)",
+    level_text="Kernel-checked Lean theorems (Props/C20.lean): every image is the concatenation of the structure's fields in kernel order and size, has the structure's size, decodes back to the original field values for every layout and all in-range values, any other slice length is rejected without reading, and an encoded link-info message (kind + bit timing + control mode as netlink attributes) decodes to the same kind, bit timing and control mode; the model is compared with the real (un)marshalers (reached through a go build -overlay shim), with the unsafe memory image of the x/sys/unix structs, with every decoder on every slice length 0..2x size, and with the real mdlayher/netlink attribute encoder/decoder on every run. The fixed-size (un)marshalers of the interface-info header, bit timing, control mode, clock, bus-error counters and statistics are additionally translated from the working tree on every run (T1, harness/cmd/go2lean; a byte slice is its first 64 bytes and its length) and the statements are proved about the translated code directly (Bridge/NetlinkGo.lean, bv_decide): every image is the fields at the kernel offsets and sizes in little-endian order with zero padding, decoding an image returns the fields, a slice of any other length is rejected with the destination untouched and nothing read, no decoder panics on a slice of the right length. If the translator does not cover the current source shape the run says so (coverage.tie_notes) and rests on the correspondence run.",
+    level_note="Trusted: Lean kernel; layout tables transcribed by hand from linux/can/netlink.h and rtnetlink.h (cross-checked against x/sys/unix memory images at run time); mdlayher/netlink is modelled (attribute TLVs), validated by correspondence; little-endian native byte order assumed. T1 theorems depend on bv_decide certificate axioms (listed under coverage.axioms); BitTimingConst (a [16]byte name) and the attribute walk are not translated.",
     level="proof", exhaustive=True,
     exhaustive_what="every decoder on every slice length 0..2x structure size; one-hot values for every bit of every field",
     trivial=r"^(err|-)$",
@@ -263,7 +266,7 @@ def _go2lean(work):
     return ""
 
 
-PRE_PROVE = {"C13": _extract_runner, "C01": _go2lean, "C02": _go2lean, "C17": _go2lean, "C08": _go2lean, "C06": _go2lean, "C04": _go2lean, "C05": _go2lean}
+PRE_PROVE = {"C13": _extract_runner, "C01": _go2lean, "C02": _go2lean, "C17": _go2lean, "C08": _go2lean, "C06": _go2lean, "C04": _go2lean, "C05": _go2lean, "C20": _go2lean}
 def _unicode_tie(work, impl):
     """the committed unicode tables equal what the toolchain's unicode package says now"""
     import subprocess, os
